@@ -3,7 +3,7 @@
    specification (headers, versions, streams) in Proofs/XfrSpec.v. *)
 From DV Require Import Base.Prelude Model.XfrM Proofs.XfrSpec.
 From DV Require Proofs.XfrZone Proofs.XfrDiff.
-From DV Require Proofs.XfrSafety Proofs.XfrBasic Proofs.XfrIxfr Proofs.XfrAxfr Proofs.XfrFault Proofs.XfrOrder Proofs.XfrRefresh Proofs.XfrGlue Proofs.XfrTsig Proofs.XfrSections Proofs.XfrGroup Proofs.XfrSoaFaults Proofs.XfrTsigLink Proofs.XfrAddStart Proofs.XfrBody Proofs.XfrGeneral Proofs.XfrGeneralAxfr.
+From DV Require Proofs.XfrSafety Proofs.XfrBasic Proofs.XfrIxfr Proofs.XfrAxfr Proofs.XfrFault Proofs.XfrOrder Proofs.XfrRefresh Proofs.XfrGlue Proofs.XfrTsig Proofs.XfrSections Proofs.XfrGroup Proofs.XfrSoaFaults Proofs.XfrTsigLink Proofs.XfrAddStart Proofs.XfrBody Proofs.XfrGeneral Proofs.XfrGeneralAxfr Proofs.XfrLegacy.
 From DV Require Model.TsigM.
 From Coq Require Import Sorting.Permutation.
 
@@ -852,3 +852,18 @@ Example ex_cname_and_other_data_last_wins :
          [mkW 0 [] [mkRR 0 1 6 0 3600 5; mkRR 1 1 1 0 300 7; mkRR 1 1 5 0 300 4; mkRR 0 1 6 0 3600 5]])
   = Done [(soakey, (3600, [5])); ((1, 5, 0), (300, [4]))].
 Proof. split; vm_compute; reflexivity. Qed.
+
+
+(* ==== the older API: dns.zone.from_xfr(dns.query.xfr(...)) ==== *)
+Theorem legacy_axfr_converges : forall v ws,
+  version_wf v -> look (v_rest v) (origin, 2, 0) <> None ->
+  chunking tAXFR (axfr_stream v) ws ->
+  exists z, legacy_axfr ws = Ok z /\ zeq z (zone_of v).
+Proof. exact XfrLegacy.legacy_axfr_converges. Qed.
+Print Assumptions legacy_axfr_converges.
+
+Example ex_legacy_runs :
+  legacy_axfr [mkW 0 [(0, tAXFR)] [soa_rr ex_v2]; mkW 0 [] [mkRR 0 1 2 0 3600 3; mkRR (-1) 1 1 0 300 7; mkRR 2 1 16 0 0 9];
+               mkW 0 [] [mkRR 0 1 2 0 3600 2; soa_rr ex_v2]; mkW 0 [] [mkRR 5 1 1 0 1 1]]
+  = Ok [(soakey, (600, [v_soa ex_v2])); ((0, 2, 0), (3600, [2; 3])); ((2, 16, 0), (0, [9])); ((-1, 1, 0), (300, [7]))].
+Proof. vm_compute. reflexivity. Qed.
